@@ -107,6 +107,12 @@ type CacheEntry struct {
 	Extra   int    `json:"extra,omitempty"` // additional chain certificates
 }
 
+// Foreign is one write to the shared cache by another instance.
+type Foreign struct {
+	AtS   int64      `json:"at_s"`
+	Entry CacheEntry `json:"entry"`
+}
+
 // Issue is what the CA does for the k-th certificate it issues.
 type Issue struct {
 	LifeNs int64 `json:"life_ns"` // NotAfter = now + LifeNs
@@ -162,19 +168,22 @@ type Scenario struct {
 	RenewBeforeNs int64        `json:"renew_before_ns"`
 	HTTP01        bool         `json:"http01,omitempty"`
 	Cache         []CacheEntry `json:"cache,omitempty"`
-	CacheFaultDen int          `json:"cache_fault_den,omitempty"` // 0 = no cache faults
-	CA            CA           `json:"ca"`
-	Waves         []Wave       `json:"waves,omitempty"`
-	HorizonS      int64        `json:"horizon_s"`
-	Skew          bool         `json:"skew,omitempty"`
-	SwitchDen     int          `json:"switch_den"`
-	JitterSeed    int64        `json:"jitter_seed"`
+	// Foreign: cache entries written during the run by another instance that
+	// shares the cache (a second Manager behind the same DirCache)
+	Foreign       []Foreign `json:"foreign,omitempty"`
+	CacheFaultDen int       `json:"cache_fault_den,omitempty"` // 0 = no cache faults
+	CA            CA        `json:"ca"`
+	Waves         []Wave    `json:"waves,omitempty"`
+	HorizonS      int64     `json:"horizon_s"`
+	Skew          bool      `json:"skew,omitempty"`
+	SwitchDen     int       `json:"switch_den"`
+	JitterSeed    int64     `json:"jitter_seed"`
 }
 
 // faultFree reports whether nothing in the scenario injects a fault, so that
 // the exact oracles (issuance count, renewal instants) apply.
 func (s *Scenario) faultFree() bool {
-	if s.CacheFaultDen != 0 || s.Skew || s.Policy.DelayMs != 0 {
+	if s.CacheFaultDen != 0 || s.Skew || s.Policy.DelayMs != 0 || len(s.Foreign) != 0 {
 		return false
 	}
 	for _, f := range s.CA.Faults {
@@ -359,9 +368,51 @@ func genSweep(r *mrand.Rand) *Scenario {
 	return s
 }
 
+// genForeign: the Manager takes certificate A from the cache; before A's
+// renewal comes up another instance overwrites the slot with certificate B
+// (its own key), which at that moment is itself due for renewal or not; hellos
+// follow after the renewal instant.
+func genForeign(r *mrand.Rand) *Scenario {
+	s := &Scenario{Mode: "sys", SwitchDen: 2 + r.IntN(6), JitterSeed: int64(r.Uint64() >> 1), Policy: Policy{Kind: "nil"}}
+	name := baseNames[r.IntN(len(baseNames))]
+	rb := []int64{3600, 86400, 3 * 86400}[r.IntN(3)]
+	s.RenewBeforeNs = rb * int64(time.Second)
+	aTo := rb + 86400*int64(1+r.IntN(9))
+	renewAt := aTo - rb // A's renewal instant (minus jitter)
+	s.Cache = []CacheEntry{{Key: name, Kind: "cert", Name: name, FromS: -3600, ToS: aTo, KeyType: "ec", Enc: []string{"sec1", "pkcs8"}[r.IntN(2)]}}
+	at := 60 + r.Int64N(renewAt-120)
+	b := CacheEntry{Key: name, Kind: "cert", Name: name, FromS: at - 60, KeyType: "ec", Enc: []string{"sec1", "pkcs8"}[r.IntN(2)]}
+	switch r.IntN(3) {
+	case 0: // B is due when A's renewal fires
+		b.ToS = aTo - r.Int64N(rb/2+1)
+	case 1: // B is not due: the Manager takes it over
+		b.ToS = aTo + 86400*int64(5+r.IntN(60))
+	default: // B expires before A's renewal
+		b.ToS = at + 60 + r.Int64N(renewAt-at)
+	}
+	s.Foreign = []Foreign{{AtS: at, Entry: b}}
+	s.CA.Challenges = []string{"tls-alpn-01"}
+	s.CA.PollRetry = -1
+	for i := 0; i < 3; i++ {
+		s.CA.Issues = append(s.CA.Issues, Issue{LifeNs: int64(longLifetimes[r.IntN(len(longLifetimes))])})
+	}
+	cl := []string{"ecdsa", "both"}[r.IntN(2)]
+	s.Waves = []Wave{{Hellos: []Hello{{Name: name, Class: cl}}}}
+	for _, t := range []int64{at + 30, renewAt + 3700, aTo - 30, aTo + 3600} {
+		if r.IntN(4) != 0 {
+			s.Waves = append(s.Waves, Wave{AtMs: t * 1000, Hellos: []Hello{{Name: name, Class: cl}}})
+		}
+	}
+	s.HorizonS = aTo + 2*86400
+	return s
+}
+
 func gen(r *mrand.Rand, prop, tier string, index int) any {
 	if r.IntN(10) == 0 {
 		return genSweep(r)
+	}
+	if r.IntN(20) == 0 {
+		return genForeign(r)
 	}
 	s := &Scenario{Mode: "sys", SwitchDen: 2 + r.IntN(6), JitterSeed: int64(r.Uint64() >> 1)}
 	ffree := r.IntN(5) < 2
@@ -2162,6 +2213,17 @@ func runHarness(c *core.Ctx, scnAny any) {
 	}
 	c.Sim.OnIdle = r.onIdle
 	c.State("policy/%s rb/%s ffree/%v", scn.Policy.Kind, bucket(time.Duration(scn.RenewBeforeNs)), r.ffree)
+	for _, f := range scn.Foreign {
+		go func() {
+			rt.SetName("foreign-instance")
+			rt.SetDaemon()
+			time.Sleep(time.Duration(f.AtS) * time.Second)
+			r.cache.remember(f.Entry.Key)
+			r.cache.m[f.Entry.Key] = r.cacheValue(f.Entry)
+			rt.Fault("cache-written-by-another-instance")
+			rt.Event("another instance wrote %q (certificate valid %ds..%ds)", f.Entry.Key, f.Entry.FromS, f.Entry.ToS)
+		}()
+	}
 	for w := range scn.Waves {
 		go r.wave(w)
 	}
